@@ -17,7 +17,7 @@ from .. import common as C
 SUMMARY_FIELDS = ["id", "prop", "desc", "corner", "expect", "cls", "direct", "why",
                   "f1", "f2", "f3", "r1", "r2", "r3", "ckey", "chash", "csalt", "session",
                   "skey", "skeyid", "ssalt", "shash1", "encseen", "encopened", "encpkt", "fault", "errtext", "rejected",
-                  "postreq", "after_encrypted", "postplain", "hang_retried", "storecalls", "afterchatter", "plainchatter", "encnotification", "latestep", "redial", "storefail"]
+                  "postreq", "after_encrypted", "postplain", "hang_retried", "storecalls", "afterchatter", "plainchatter", "encnotification", "latestep", "redial", "storefail", "storewindow"]
 
 CLASS_OF_VERDICT = {"success": "ok", "failed": "err", "panicked": "panic", "stalled": "hang"}
 
@@ -204,6 +204,8 @@ def run(ctx, prop, props_file, rule, distribution_note):
         if r.get("latestep", "") not in ("", "0"):
             stats["client_held_300ms_before_it_listened_for_answer_%s" % r["latestep"]] = \
                 stats.get("client_held_300ms_before_it_listened_for_answer_%s" % r["latestep"], 0) + 1
+        if r.get("storewindow", "") not in ("", "-"):
+            stats["encrypted_pong_during_the_first_store:" + r["storewindow"].split(":")[0]] = stats.get("encrypted_pong_during_the_first_store:" + r["storewindow"].split(":")[0], 0) + 1
         if r.get("redial", "") not in ("", "-"):
             stats["abandoned_exchange_then_connection_closed:" + r["redial"]] = stats.get("abandoned_exchange_then_connection_closed:" + r["redial"], 0) + 1
         if c.get("Corner"):
